@@ -547,7 +547,7 @@ func checkC14(c *Ctx) {
 	if c.Tier == "thorough" {
 		nConv, multi = 120, 2000
 	}
-	c.Rule = "corpus = every uplink and downlink NGAP message of simulated conversations (all on-path types, swarm-varied) plus the encodings of the library's own builders plus, for every message type of the NGAP schema (all initiating messages and outcomes, each with every IE its container knows), a smallest, a largest and drawn well-formed values built from the library's Go types and aper tags and encoded by the library's encoder; for each corpus message the single-fault space is enumerated completely: every strict prefix, every single-bit flip, every octet set to 00/7F/80/FF/C1/C4, every octet pair set to FFFF/7FFF/8000/BFFF/C4C4, runs of C4 (8, 40), FF (8), 00 (8) at every offset (adversarial lengths, counts and fragmented length determinants), and structure-consistent faults: the value of every top-level IE replaced by nothing, by every single octet and by 60 two-/three-octet values while the IE's and the message's length determinants are kept right; thorough adds seeded multi-octet faults, splices and random strings. evaluation = one ngap.Decoder call; oracle: returns (PDU | error), no panic, no fatal error, <= 16 MiB allocated and <= 5 s per call. distinct = distinct (corpus message, mutation); non-trivial = all (the genuine message itself is decoded too)"
+	c.Rule = "corpus = every uplink and downlink NGAP message of simulated conversations (all on-path types, swarm-varied) plus the encodings of the library's own builders plus, for every message type of the NGAP schema (all initiating messages and outcomes, each with every IE its container knows), a smallest, a largest and drawn well-formed values built from the library's Go types and aper tags and encoded by the library's encoder; for each corpus message the single-fault space is enumerated completely: every strict prefix, every single-bit flip, every octet set to 00/7F/80/FF/C1/C4, every octet pair set to FFFF/7FFF/8000/BFFF/C4C4, runs of C4 (8, 40), FF (8), 00 (8) at every offset (adversarial lengths, counts and fragmented length determinants), and structure-consistent faults: the value of every top-level IE replaced by nothing, by every single octet and by 60 two-/three-octet values while the IE's and the message's length determinants are kept right; thorough adds seeded multi-octet faults, splices and random strings; a quarter of the enumeration (thorough: all of it, twice) is repeated in a process whose library log files cannot be opened (a directory stands where aper.log / ngap.log / nas.log / free5gc.log / the log directory should be). evaluation = one ngap.Decoder call; oracle: returns (PDU | error), no panic, no fatal error, <= 16 MiB allocated and <= 5 s per call. distinct = distinct (corpus message, mutation); non-trivial = all (the genuine message itself is decoded too)"
 	c.Assume = []string{"thresholds (16 MiB, 5 s per call for inputs <= 4 KiB) are far above honest behaviour so that they never trip on correct code",
 		"the corpus need not be independent of the library: the builders' own encodings are used for breadth"}
 	c.Components = map[string][]string{"real": {"free5gclib/ngap.Decoder", "free5gclib/aper", "free5gclib/ngap/ngapType"}, "stub": {"none: message-corruption faults are applied to the byte strings handed to the decoder"}}
@@ -654,9 +654,30 @@ func checkC14(c *Ctx) {
 		s.Rig["no_shrink"] = true
 		s.Quiet = false
 		jobs = append(jobs, Job{S: s, Rig: "ls", Judge: "ls", Tag: "c14-fault-enumeration"})
+		// the same enumeration while the library's log files cannot be opened (disk fault at start-up):
+		// the decoder logs on its error paths, and what it logs to must not matter. One part in four in
+		// the quick tier (the fault kind rotates), every part under two kinds in the thorough tier.
+		kinds := []string{"aper-log", "free5gc-log", "lib-logs", "all-logs", "log-dir"}
+		var use []string
+		if c.Tier == "thorough" {
+			use = []string{kinds[(i/2)%5], kinds[(i/2+2)%5]}
+		} else if (i/2)%4 == 0 {
+			use = []string{kinds[(i/8)%5]}
+		}
+		for _, k := range use {
+			sf := cloneScn(s)
+			sf.Rig["fs_fault"] = k
+			jobs = append(jobs, Job{S: sf, Rig: "ls", Judge: "ls", Tag: "c14-fault-enumeration/fs:" + k})
+			for _, m := range msgs[i:end] {
+				total += 24*len(m)/2 + 1 + multi
+			}
+		}
 	}
 	decodes := 0
 	c.Batch(jobs, func(j Job, r *Run, fs []Finding) {
+		if k, _ := j.S.Rig["fs_fault"].(string); k != "" {
+			c.Faults["log file(s) cannot be opened at start-up: "+k]++
+		}
 		for _, e := range r.Events {
 			if e.Ev == "hist" {
 				if f, ok := e.Info["decodes"].(float64); ok {
